@@ -70,7 +70,11 @@ func main() {
 			if len(c.Pool) == 0 {
 				continue
 			}
-			hist.GenOps(r, &c.Case, 30+r.IntN(50), r.IntN(3), false)
+			if i%3 == 2 {
+				hist.GenStory(r, &c.Case)
+			} else {
+				hist.GenOps(r, &c.Case, 30+r.IntN(50), r.IntN(3), false)
+			}
 			switch r.IntN(3) {
 			case 0:
 				c.Opts = append(c.Opts, "ignore")
@@ -175,7 +179,17 @@ func check(run *kit.Run, c caseFile) {
 			perMethod[strings.SplitN(l, " ", 2)[0]]++
 		}
 		for _, q := range probeSet(r, c.Pool, c.Methods) {
+			*a.Hit = -1
 			oa, ob := observe(a.F, q), observe(bf, q)
+			// the handler that ran must be the one currently registered for the matched route
+			if *a.Hit >= 0 {
+				run.Count("served_handler_identity_checked", 1)
+				if want, ok := a.Committed.ID(q.Method, oa.pattern); !ok || want != *a.Hit {
+					run.Violate("stale-handler|"+id+q.String(), fmt.Sprintf("the handler that served the request is not the one currently registered for the matched route (registration #%d ran, #%d is current)\nrequest: %s\nmatched: %s\nhistory: %s",
+						*a.Hit, want, q, oa, c.Case.String()), c)
+					return
+				}
+			}
 			run.Case(fmt.Sprintf("%v|%v|%s", c.Opts, final, q), perMethod[q.Method] >= 2 || oa.pattern == "")
 			if !same(oa, ob) {
 				run.Violate("history-dependent|"+id+q.String(), fmt.Sprintf("two routers with the same routes and options answer differently\nrequest: %s\nafter history: %s\nfresh fill:    %s\nset: %v\noptions: %v\nhistory: %s",
